@@ -45,6 +45,12 @@ pub struct Exec {
     pub init: Option<Model>,
     pub machinery: Option<String>,
     pub unjoined: usize,
+    /// device log from before the device existed (only for `ack:` programs) and the image it starts from
+    pub log: Vec<crate::session::IoEv>,
+    pub base: Vec<u8>,
+    /// the sequential setup as pseudo-history (thread usize::MAX)
+    pub setup_recs: Vec<OpRec>,
+    pub now: u64,
 }
 
 impl Exec {
@@ -95,7 +101,12 @@ pub fn execute(p: &Program, prefix: &[usize], horizon: usize, on_decision: Optio
         init: None,
         machinery: None,
         unjoined: 0,
+        log: Vec::new(),
+        base: Vec::new(),
+        setup_recs: Vec::new(),
+        now: T0,
     };
+    let want_log = p.name.starts_with("ack:");
     let mut roles: Vec<&'static str> = Vec::new();
     if p.cfg.persistent {
         for i in 0..p.cfg.workers {
@@ -111,6 +122,7 @@ pub fn execute(p: &Program, prefix: &[usize], horizon: usize, on_decision: Optio
         sess.set_flag(F_FORCE_SYNC, !p.cfg.uring);
         let sched = Sched::new(prefix.to_vec(), horizon, &roles);
         sess.set_sched(Some(sched.clone() as Arc<dyn SchedHooks>));
+        sess.log_enabled.store(want_log, Ordering::SeqCst);
         let sut = match Sut::create_with(p.cfg, "sched", sess.clone()) {
             Ok(s) => s,
             Err(e) => {
@@ -145,10 +157,12 @@ pub fn execute(p: &Program, prefix: &[usize], horizon: usize, on_decision: Optio
     }
     // sequential setup, checked against the strict model
     let mut model = Model::new(p.cfg, T0);
-    for op in &p.setup {
+    for (si, op) in p.setup.iter().enumerate() {
+        let log_invoke = sess.log_len();
         let out = sut.apply(&p.tables, op);
         let ts = sched::take_thread_timestamp();
         model.now = sut.now();
+        ex.setup_recs.push(OpRec { thread: usize::MAX, idx: si, op: *op, invoke: 0, response: 0, out: out.clone(), ts, log_invoke, log_response: sess.log_len() });
         if let Err(e) = model.step(&p.tables, op, &out, ts) {
             ex.machinery = Some(format!("setup step {} disagrees with the model: {e}", p.tables.describe(op)));
             return ex;
@@ -185,6 +199,7 @@ pub fn execute(p: &Program, prefix: &[usize], horizon: usize, on_decision: Optio
             sched2.start_gate(tid);
             for (i, op) in ops.iter().enumerate() {
                 sched::take_thread_timestamp();
+                let log_invoke = sess2.log_len();
                 let invoke = stamp2.fetch_add(1, Ordering::SeqCst);
                 let out = match op {
                     Op::Tick => {
@@ -195,7 +210,8 @@ pub fn execute(p: &Program, prefix: &[usize], horizon: usize, on_decision: Optio
                 };
                 let ts = sched::take_thread_timestamp();
                 let response = stamp2.fetch_add(1, Ordering::SeqCst);
-                recs2.lock().unwrap().push(OpRec { thread: ti, idx: i, op: *op, invoke, response, out, ts });
+                let log_response = sess2.log_len();
+                recs2.lock().unwrap().push(OpRec { thread: ti, idx: i, op: *op, invoke, response, out, ts, log_invoke, log_response });
                 SchedHooks::point(&*sched2, "op_boundary", ti as u64, i as u64);
             }
             sched2.finish_thread();
@@ -283,6 +299,11 @@ pub fn execute(p: &Program, prefix: &[usize], horizon: usize, on_decision: Optio
         }
         ex.final_dump = Some(sut.store().verif_dump());
     }
+    ex.now = sut.now();
+    if want_log {
+        ex.log = sess.log.lock().clone();
+        ex.base = if p.cfg.format >= 3 { vec![0u8; p.cfg.total_blocks() as usize * 4096] } else { crate::layoutref::empty_device(p.cfg.format, p.cfg.total_blocks(), T0 / crate::sut::SEC) };
+    }
     if ex.unjoined == 0 {
         sut.close();
     } else {
@@ -310,7 +331,7 @@ pub struct Found {
     pub reproduced: bool,
 }
 
-pub type Judge = dyn Fn(&Program, &Exec) -> Vec<String> + Sync;
+pub type Judge<'a> = dyn Fn(&Program, &Exec) -> Vec<String> + Sync + 'a;
 
 /// Default oracle: linearizability against the LWW model + range clauses + I/O monitor.
 pub fn judge_linearizable(p: &Program, ex: &Exec) -> Vec<String> {
@@ -348,6 +369,75 @@ pub fn judge_linearizable(p: &Program, ex: &Exec) -> Vec<String> {
         if let Out::Panic(m) = &r.out {
             v.push(format!("C20: {} panicked: {m}", p.tables.describe(&r.op)));
         }
+    }
+    v
+}
+
+/// C02 on scheduled executions: every crash image of the execution's device log is
+/// judged against the acknowledgement windows derived from a linearization of the
+/// history (a flush acknowledges everything that completed before it was invoked).
+pub fn judge_acknowledged(p: &Program, ex: &Exec, seen: &Mutex<HashSet<u128>>) -> Vec<String> {
+    use crate::crash::{self, KeyHist, Obligations};
+    let mut v = judge_linearizable(p, ex);
+    let Some(init0) = ex.init.as_ref() else { return v };
+    if !v.is_empty() || ex.log.is_empty() {
+        return v;
+    }
+    // a linearization order of the concurrent part
+    let dump = ex.final_dump.clone();
+    let final_check = |m: &Model| -> Result<(), String> {
+        match &dump {
+            Some(d) => m.check_dump(d).into_iter().next().map_or(Ok(()), Err),
+            None => Ok(()),
+        }
+    };
+    let inp = LinInput { tables: &p.tables, init: init0, recs: &ex.recs, finals: &ex.finals, final_check: &final_check };
+    let Ok(order) = lin::linearizable(&inp) else { return v };
+    // sequential pseudo-history: setup, then the concurrent ops in linearization order
+    let mut seq: Vec<&OpRec> = ex.setup_recs.iter().collect();
+    seq.extend(order.iter().map(|&i| &ex.recs[i]));
+    let keys = crash::tables_keys(&p.tables);
+    let mut model = Model::new(p.cfg, T0);
+    model.lenient_ts = true;
+    let mut hists: Vec<KeyHist> = keys.iter().map(|k| KeyHist { key: k.clone(), states: vec![(usize::MAX, None)] }).collect();
+    let mut produced_by: Vec<Vec<usize>> = vec![vec![usize::MAX]; keys.len()]; // per key: seq index producing each state
+    let mut op_begin = Vec::new();
+    for (si, r) in seq.iter().enumerate() {
+        op_begin.push(r.log_invoke);
+        if !matches!(r.op, Op::Tick | Op::Range { .. }) {
+            let _ = model.step(&p.tables, &r.op, &r.out, r.ts);
+        }
+        for (ki, h) in hists.iter_mut().enumerate() {
+            let now = model.map.get(&h.key).cloned();
+            if h.states.last().unwrap().1 != now {
+                h.states.push((si, now));
+                produced_by[ki].push(si);
+            }
+        }
+    }
+    let mut acks = Vec::new();
+    for r in seq.iter() {
+        if matches!(r.op, Op::Flush) && r.out == Out::Unit {
+            // everything that had completed before this flush was invoked
+            let floors: Vec<usize> = produced_by
+                .iter()
+                .map(|prod| {
+                    prod.iter()
+                        .rposition(|&si| si == usize::MAX || seq[si].thread == usize::MAX && r.thread == usize::MAX && seq[si].idx < r.idx || (seq[si].thread == usize::MAX && r.thread != usize::MAX) || (seq[si].thread != usize::MAX && r.thread != usize::MAX && seq[si].response < r.invoke))
+                        .unwrap_or(0)
+                })
+                .collect();
+            acks.push((r.log_response, floors));
+        }
+    }
+    acks.sort_by_key(|a| a.0);
+    let ob = Obligations { hists, acks, op_begin, ttl: p.cfg.ttl };
+    let from = ex.setup_recs.last().map(|r| r.log_response).unwrap_or(0);
+    let opts = crash::CrashOpts { sector_tear: false, reopen_cycles: 0, nest: 0, now: ex.now };
+    let ctx = hash64(&[p.name.as_bytes(), format!("{:?}{:?}", ob.hists, ob.acks).as_bytes()]);
+    let (_st, findings) = crash::check_history(&p.cfg, &ex.base, &ex.log, &ob, from, &opts, seen, ctx);
+    for f in findings {
+        v.push(format!("{} [crash image {}]", f.msg, f.desc));
     }
     v
 }
@@ -526,14 +616,12 @@ pub fn run_programs(
     report.add("programs_not_started_or_capped", n as u64 - completed_programs);
     report.add("programs_with_a_single_result_vector", single_outcome);
     report.set("deviation_bound", bound);
-    report.set(
+    report.merge_map(
         "program_families",
-        serde_json::Value::Object(
-            per_family
-                .into_iter()
-                .map(|(k, v)| (k, json!({"programs": v.0, "schedules": v.1, "distinct_histories": v.2, "completed_at_bound": v.3})))
-                .collect(),
-        ),
+        per_family
+            .into_iter()
+            .map(|(k, v)| (k, json!({"programs": v.0, "schedules": v.1, "distinct_histories": v.2, "completed_at_bound": v.3, "deviation_bound": bound})))
+            .collect(),
     );
     for m in machinery.into_inner().unwrap() {
         report.machinery(m);
